@@ -526,9 +526,13 @@ func TestVerifC18(t *testing.T) {
 		r.Bounds["jobs_loop_free_graphs"] = 5
 		c18Enumerate(5, false, false, check)
 	}
-	// every graph on <= 4 jobs (no dangling / duplicate entries) with all job ids on ONE source line
+	// every graph on <= 3 (thorough 4) jobs (no dangling / duplicate entries) with all job ids on ONE source line
 	// (flow style): positions differ in the column only
-	for n := 1; n <= 4; n++ {
+	sameLineN := 3
+	if vThorough() {
+		sameLineN = 4
+	}
+	for n := 1; n <= sameLineN; n++ {
 		c18Enumerate(n, true, false, func(idx int64, c *c18Case) bool {
 			c.Desc = "same-line " + c.Desc
 			c.SameLine = true
